@@ -169,6 +169,12 @@ def gen_cases(rng, quick):
             grid = int_grid(rng, m, ["arange", "gaps", "doy"][kindi])
             t = (grid - grid[0]) / (grid[-1] - grid[0])
             x = np.round((fd.smooth_curves(rng, n, t) + 0.1 * rng.normal(size=(n, m))) * 1024) / 1024
+            if k % 8 in (7, 2):
+                # observed samples that are EXACTLY zero (curves starting at 0, zero crossings on grid points): a value, not a gap
+                x[0, 0] = 0.0
+                x[1, :] -= x[1, m // 2]
+                x[n - 1, m - 1] = 0.0
+                mask[0, 0] = mask[1, m // 2] = mask[n - 1, m - 1] = True
             yield (f"random/{['arange', 'gaps', 'doy'][kindi]}", grid, x, mask, True)
         else:
             grid = fd.grid(rng, m, ["uniform", "nonuniform"][kindi - 3])
